@@ -261,3 +261,51 @@ pub fn c03_length_trace(l: usize, fill: u8, variant: u8) -> StreamTrace {
     t.run = (l as u64) * 3 + fill as u64;
     t
 }
+
+/// short base streams whose *every* chunking (all 2^(n-1) cut sets) is enumerated
+pub fn short_streams() -> Vec<(String, Vec<Piece>)> {
+    let f = |l: usize, fill: u8| -> Piece {
+        let payload: Vec<u8> = (0..l).map(|i| fill.wrapping_add(i as u8)).collect();
+        piece(&format!("foreign:L={}", l), "foreign", make_frame(0, &payload), true)
+    };
+    let broken = |l: usize| -> Piece {
+        let mut p = f(l, 0x21);
+        let n = p.bytes.len();
+        p.bytes[n - 1] ^= 0x40;
+        p.intact = false;
+        p.label = format!("nearmiss:crc_bit:L={}", l);
+        p.kind = "nearmiss";
+        p
+    };
+    let noise = |b: Vec<u8>| piece("noise:bytes", "noise", b, false);
+    let mut nested_payload = vec![0x55];
+    nested_payload.extend_from_slice(&make_frame(0, &[]));
+    let nested_ok = piece("nested:valid_outer", "nested", make_frame(0, &nested_payload), true);
+    let mut nested_broken = make_frame(0, &nested_payload);
+    let nb = nested_broken.len();
+    nested_broken[nb - 2] ^= 0x01;
+    vec![
+        ("L0_L1".to_string(), vec![f(0, 0), f(1, 0x9A)]),
+        ("d3_L0_d300".to_string(), vec![noise(vec![0xD3]), f(0, 0), noise(vec![0xD3, 0x00])]),
+        ("L2_L0".to_string(), vec![f(2, 0x3E), f(0, 0)]),
+        ("brokenL1_L0".to_string(), vec![broken(1), f(0, 0)]),
+        ("header_L0_L0".to_string(), vec![noise(vec![0xD3, 0x00, 0x01]), f(0, 0), f(0, 0)]),
+        ("nested_ok_L0".to_string(), vec![nested_ok]),
+        ("nested_broken".to_string(), vec![piece("nested:broken_outer", "nested", nested_broken, false)]),
+        ("garbage_L1_garbage".to_string(), vec![noise(vec![0x00, 0xD3, 0x01]), f(1, 0xD3), noise(vec![0xD3])]),
+    ]
+}
+
+pub fn clone_pieces(ps: &[Piece]) -> Vec<Piece> {
+    ps.iter().map(|p| Piece { label: p.label.clone(), kind: p.kind, bytes: p.bytes.clone(), intact: p.intact, c04: p.c04.clone() }).collect()
+}
+
+/// the trace for cut set `mask` (bit i set = cut after byte i+1) of a short stream
+pub fn chunking_trace(prop: Prop, name: &str, ps: &[Piece], mask: u64, variant: u8) -> StreamTrace {
+    let n: usize = ps.iter().map(|p| p.bytes.len()).sum();
+    let cuts: Vec<usize> = (1..n).filter(|i| (mask >> (i - 1)) & 1 == 1).collect();
+    let mut t = build(prop, "all_chunkings", clone_pieces(ps), cuts, vec![], variant, "enumerated");
+    t.origin = format!("sweep:chunkings:{}:{:#x}", name, mask);
+    t.run = mask;
+    t
+}
